@@ -5,5 +5,9 @@ var Properties = map[string]*PropertySpec{
 	"C03": {ID: "C03", Dirs: []string{"heap"}, Prefix: "ZvC03_",
 		Bounds: map[string]string{"heap size N": "quick 6 / thorough 9 (single-sift ops)", "comparators": "<, >, uninterpreted strict weak order"},
 		Outside: []string{"heaps larger than the size bound", "comparators that are not strict weak orders"},
-		Stubs:  []string{"sync.RWMutex: engine lock objects", "fmt.Errorf: fresh opaque non-nil error"}},
+		Stubs:  []string{"sync.RWMutex: engine lock objects", "fmt.Errorf: fresh opaque non-nil error"},
+		LevelText: "Bounded symbolic model checking of the real heap code: one real operation from an arbitrary heap-ordered array (all sizes up to the bound, 64-bit symbolic elements, comparators <, > and an uninterpreted strict weak order) must re-establish heap order and the multiset contract on every feasible path (z3 unsat per assertion); plus API-only bounded histories. Inductive in the size-bounded state space; no claim beyond the bound.",
+		LevelNote: "Trusted: go/ssa as semantics of the source, the engine's instruction semantics (every counterexample is replayed natively before it is reported), z3, lock stub. heap.Delete's re-sift defect is pinned by TestHeap_MaxHeap and recorded as two known findings scoped to (Delete of a present value, >=2 elements) x (no-panic, heap-order).",
+		Technique: "SSA symbolic execution + SMT (z3), inductive step from arbitrary invariant state, native replay",
+		DesignRef: "DESIGN.md §4 C03"},
 }
